@@ -42,6 +42,7 @@ import DDProps.C11CopyVars
 import DDProps.C12
 import DDProps.C12Dyn
 import DDProps.C12Sched
+import DDProps.C12SchedKeep
 import DDProps.C12Total
 import DDProps.C13
 import DDProps.C13Counts
